@@ -844,3 +844,139 @@ func TestC13Workloads(t *testing.T) {
 		}
 	})
 }
+
+// TestC13RotationVsReaders: readers of every kind run while the free-running
+// rotation loop rotates several times. Nothing but the rotations changes the
+// state, so the final state is known; under the race detector (driver) this is
+// where an unlocked read of the window offset or of the archive shows up, since
+// few other accesses lie between the rotation's write and the racing read.
+func TestC13RotationVsReaders(t *testing.T) {
+	ev.Rule("C13(2b): 2-4 rotations by the free-running loop while 4-12 goroutines issue statistics queries (live, archived, future, misaligned, with false negatives), recent-reports, equipment, archive and sync requests; run under the race detector; oracle: no race report, no panic, every 200 statistics reply parses and verifies under the server key, final offset = 2016 x rotations, archive contiguous, CheckInvariants; non-trivial = every case")
+	rapid.Check(t, func(t *rapid.T) {
+		ev.Eval(1)
+		server.VerifSetStepping(false)
+		defer server.VerifSetStepping(true)
+		temp, gca := keyFor("temp"), keyFor("gca")
+		glow.SetCurrentTimeslot(100)
+		dir := world.NewServerDir(temp.Pub)
+		defer os.RemoveAll(dir)
+		srv, err := world.StartServer(dir)
+		if err != nil {
+			t.Fatalf("C13: start: %v", err)
+		}
+		closed := false
+		defer func() {
+			glow.SetCurrentTimeslot(0)
+			if !closed {
+				if a, b := srv.S.VerifTryLocks(); a && b {
+					srv.Close()
+				} else {
+					srv.Abandon()
+				}
+			}
+			world.StopAllLeaked()
+			server.VerifPanics()
+		}()
+		if st, _, err := srv.Register(gca.Pub, temp); err != nil || st != 200 {
+			t.Fatalf("C13: registration failed")
+		}
+		dk := keyFor("c13r-dev")
+		a := ref.Auth{ShortID: 1, PublicKey: dk.Pub, Capacity: 1 << 40}
+		a.Sig = ref.Sign(gca, a.SigningBytes())
+		if st, _, err := srv.Authorize(a); err != nil || st != 200 {
+			t.Fatalf("C13: authorization failed")
+		}
+		for i := 0; i < 10; i++ {
+			srv.SendUDP(ref.SignedReport(dk, 1, uint32(90+i), uint64(100+i)).Encode())
+		}
+		pub := [32]byte(srv.VerifSnapshot().ServerPub)
+		rotations := rapid.IntRange(2, 4).Draw(t, "rotations")
+		readers := rapid.IntRange(4, 12).Draw(t, "readers")
+		pk := hex.EncodeToString(dk.Pub[:])
+		for r := 1; r <= rotations; r++ {
+			stop := make(chan struct{})
+			var wg sync.WaitGroup
+			errs := make(chan string, readers)
+			for g := 0; g < readers; g++ {
+				wg.Add(1)
+				go func(g int) {
+					defer wg.Done()
+					paths := []string{"/api/v1/all-device-stats?timeslot_offset=0", fmt.Sprintf("/api/v1/all-device-stats?timeslot_offset=%d", 2016*(r-1)), fmt.Sprintf("/api/v1/all-device-stats?timeslot_offset=%d", 2016*r),
+						fmt.Sprintf("/api/v1/all-device-stats?timeslot_offset=%d&insert_false_negatives=true", 2016*(r-1)), "/api/v1/all-device-stats?timeslot_offset=17", "/api/v1/recent-reports?publicKey=" + pk, "/api/v1/equipment", "/api/v1/archive"}
+					for i := 0; ; i++ {
+						select {
+						case <-stop:
+							return
+						default:
+						}
+						p := paths[(i+g)%len(paths)]
+						st, body, err := srv.Get(p)
+						if err != nil {
+							errs <- fmt.Sprintf("GET %s: %v", p, err)
+							return
+						}
+						if st == 200 && strings.Contains(p, "all-device-stats") && !strings.Contains(p, "false_negatives") {
+							var j statsJSON
+							if json.Unmarshal(body, &j) != nil {
+								errs <- "statistics reply does not parse during a rotation"
+								return
+							}
+							if w, err := j.week(); err != nil || !ref.Verify(pub, w.SigningBytes(), w.Sig) {
+								errs <- fmt.Sprintf("statistics reply for %s served during a rotation does not verify under the server key", p)
+								return
+							}
+						}
+						if i%5 == 0 {
+							srv.SyncDevice(1)
+						}
+					}
+				}(g)
+			}
+			glow.SetCurrentTimeslot(uint32(2016*(r-1) + 3300))
+			deadline := time.Now().Add(4 * time.Second)
+			for srv.VerifSnapshot().Offset != uint32(2016*r) && time.Now().Before(deadline) {
+				time.Sleep(3 * time.Millisecond)
+			}
+			time.Sleep(10 * time.Millisecond)
+			close(stop)
+			wg.Wait()
+			select {
+			case e := <-errs:
+				t.Fatalf("C13: %s (panics %+v)", e, server.VerifPanics())
+			default:
+			}
+			if off := srv.VerifSnapshot().Offset; off != uint32(2016*r) {
+				t.Fatalf("C13: after rotation %d the window offset is %d", r, off)
+			}
+		}
+		if ps := server.VerifPanics(); len(ps) > 0 {
+			t.Fatalf("C13: server goroutine panicked: %s: %s", ps[0].Where, ps[0].Value)
+		}
+		snap := srv.VerifSnapshot()
+		if len(snap.History) != rotations {
+			t.Fatalf("C13: %d archived weeks after %d rotations", len(snap.History), rotations)
+		}
+		for k, w := range snap.History {
+			if w.TimeslotOffset != uint32(2016*k) {
+				t.Fatalf("C13: archived week %d labelled %d", k, w.TimeslotOffset)
+			}
+		}
+		func() {
+			defer func() {
+				if r := recover(); r != nil {
+					t.Fatalf("C13: consistency check fails: %v", r)
+				}
+			}()
+			srv.S.CheckInvariants()
+		}()
+		ev.NonTrivial(fmt.Sprintf("c13|rotvsreaders|%d|%d", rotations, readers))
+		ev.Label("c13:rotation-vs-readers")
+		ev.Sample("c13:rotation-vs-readers", map[string]interface{}{"rotations": rotations, "reader_goroutines": readers})
+		glow.SetCurrentTimeslot(snap.Offset)
+		err = srv.Close()
+		closed = true
+		if err != nil && (strings.HasPrefix(err.Error(), "panic:") || strings.HasPrefix(err.Error(), "timeout:")) {
+			t.Fatalf("C13: shutdown failed: %v", err)
+		}
+	})
+}
